@@ -20,6 +20,10 @@ RULE = (
     'two_theta/incident_beam/scattered_beam on a data array, through every graph factory of conversion.graph.beamline with transform_coords, and through the Lean model (Float instance). '
     'Oracle cases: exact dyadic families (b2 = s·P(2τ,0,±(1−τ²)), τ=k/2^j, P signed permutation or 3-4-5 rotation) '
     'and random floats; the true angle of the exact binary inputs is computed with 70-digit decimals. '
+    '0-d (scalar) incident/scattered beams, half of them along a coordinate axis with transverse components of 1e-16…1e-9 '
+    'in the beam\'s unit (units m/mm/km/cm), go through the correspondence, the accuracy oracle and a rescaling oracle '
+    '(×1e±6, 1e±12). Data arrays carrying any subset of precomputed incident_beam/scattered_beam/L1/L2/two_theta coordinates '
+    'are passed to every accessor of beamline_components twice (identical results, Euclidean values, bit-identical input). '
     'A case is non-trivial when both beams are non-zero; distinct = distinct input bit patterns.'
 )
 ASSUMPTIONS = [
@@ -77,8 +81,32 @@ def _perp(rng, b):
 OFFSETS = [0.0, 1e-16, 1e-15, 1e-14, 1e-13, 1e-12, 1e-11, 1e-10, 1e-9, 1e-8, 1e-7, 1e-6, 1e-5, 1e-4, 1e-3]
 
 
+TINY = [1e-16, 1e-15, 1e-14, 1e-13, 1e-12, 1e-11, 3e-11, 9e-11, 1.1e-10, 1e-9]
+
+
+def near_axis_vec(rng, axis=None, sign=None, lo=1e-6, hi=1e6):
+    """a vector along a coordinate axis whose transverse components are tiny in ABSOLUTE terms (1e-16 … 1e-9 in the
+    beam's unit): short beams / large units / near-axis tilts.  Norm log-uniform in [lo, hi], weighted to short."""
+    axis = rng.randrange(3) if axis is None else axis
+    sign = rng.choice([1.0, -1.0]) if sign is None else sign
+    n = _lu(rng, lo, min(hi, 1e-3)) if rng.random() < 0.5 else _lu(rng, lo, hi)
+    v = [0.0, 0.0, 0.0]
+    v[axis] = sign * n
+    others = [k for k in range(3) if k != axis]
+    for k in others:
+        if rng.random() < 0.75:
+            v[k] = rng.choice([1.0, -1.0]) * rng.choice(TINY) * rng.choice([1.0, rng.uniform(0.5, 2.0)])
+    if v[others[0]] == 0.0 and v[others[1]] == 0.0 and rng.random() < 0.7:
+        v[rng.choice(others)] = rng.choice(TINY)
+    return v
+
+
 def gen_beams(rng):
     """(kind, b1, b2) with float components"""
+    if rng.random() < 0.1:
+        b1 = near_axis_vec(rng, axis=2 if rng.random() < 0.6 else None, sign=1.0 if rng.random() < 0.7 else None)
+        b2 = near_axis_vec(rng) if rng.random() < 0.3 else _vec(rng)
+        return 'near-axis', b1, b2
     r = rng.random()
     b1 = _vec(rng)
     n1 = math.sqrt(sum(c * c for c in b1))
@@ -255,6 +283,32 @@ def _impl_graph_factories(srcs, smps, poss, unit):
     return res
 
 
+def impl_two_theta_0d(b1, b2s, unit1='m', unit2='m', scalar_b2=False):
+    """two_theta with a 0-d (scalar) incident beam against a per-pixel scattered beam, or (scalar_b2) 0-d against 0-d
+    one pair at a time"""
+    from scippneutron.conversion import beamline as bl
+
+    try:
+        ib = _vector(b1, unit1)
+        if scalar_b2:
+            return np.array([float(bl.two_theta(incident_beam=ib, scattered_beam=_vector(b2, unit2)).value) for b2 in b2s])
+        return np.array(bl.two_theta(incident_beam=ib, scattered_beam=_vectors(b2s, unit2)).values, dtype=np.float64)
+    except Exception as e:  # noqa: BLE001
+        raise ImplRaised('two_theta(0-d incident beam)', e, {'b1': [hp.bits(x) for x in b1], 'b2': [hp.bits(x) for x in b2s[0]],
+                                                             'units': [unit1, unit2], 'via': 'two_theta-0d'}) from e
+
+
+def impl_two_theta_0d_b2(b1s, b2, unit1='m', unit2='m'):
+    """per-pixel incident beams against a 0-d scattered beam"""
+    from scippneutron.conversion import beamline as bl
+
+    try:
+        return np.array(bl.two_theta(incident_beam=_vectors(b1s, unit1), scattered_beam=_vector(b2, unit2)).values, dtype=np.float64)
+    except Exception as e:  # noqa: BLE001
+        raise ImplRaised('two_theta(0-d scattered beam)', e, {'b1': [hp.bits(x) for x in b1s[0]], 'b2': [hp.bits(x) for x in b2],
+                                                              'units': [unit1, unit2], 'via': 'two_theta-0d-b2'}) from e
+
+
 def _impl_two_theta(b1s, b2s, unit1='m', unit2='m'):
     from scippneutron.conversion import beamline as bl
 
@@ -375,6 +429,7 @@ def _correspond(ctx):
             k += 1
     _correspond_scalar(ctx)
     _correspond_beams(ctx)
+    _correspond_beams_0d(ctx)
 
 
 def _correspond_scalar(ctx):
@@ -428,6 +483,66 @@ def _correspond_beams(ctx):
 
 # ---------------------------------------------------------------------------------------------
 # direct oracle
+
+BIG_UNITS = ['m', 'mm', 'km', 'cm']
+
+
+def gen_0d_group(rng):
+    """(b1, [b2…]): one incident beam (half of them near an axis with tiny absolute transverse components) and a handful of
+    scattered beams (random, near-degenerate w.r.t. b1, near-axis)"""
+    r = rng.random()
+    if r < 0.6:
+        b1 = near_axis_vec(rng, axis=2 if rng.random() < 0.6 else None, sign=1.0 if rng.random() < 0.7 else None,
+                           hi=1e6 if rng.random() < 0.3 else 1e2)
+    else:
+        b1 = _vec(rng)
+    n1 = math.sqrt(sum(c * c for c in b1))
+    b2s = []
+    for _ in range(rng.randrange(1, 7)):
+        q = rng.random()
+        if q < 0.4:
+            b2s.append(_vec(rng))
+        elif q < 0.6:
+            b2s.append(near_axis_vec(rng))
+        else:
+            off = rng.choice(OFFSETS)
+            p = _perp(rng, b1) if n1 > 0 else [1.0, 0.0, 0.0]
+            c = _lu(rng, 1e-3, 1e3) * rng.choice([1.0, -1.0])
+            b2s.append([c * (b1[i] + off * n1 * p[i]) for i in range(3)])
+    return b1, b2s
+
+
+def _correspond_beams_0d(ctx):
+    """two_theta with 0-d operands (scalar incident beam × per-pixel scattered beam, both scalar, per-pixel × scalar)"""
+    rng = ctx.rng
+    groups = [gen_0d_group(rng) for _ in range(ctx.n(500, 20000))]
+    lines = ['c03.tt ' + ' '.join(hp.bits(x) for x in (*b1, *b2)) for b1, b2s in groups for b2 in b2s]
+    outs = iter(ctx.driver(lines))
+    for b1, b2s in groups:
+        u1, u2 = rng.choice(BIG_UNITS), rng.choice(BIG_UNITS)
+        mode = rng.choice(['0d-b1', '0d-b1', 'both-0d', '0d-b2'])
+        if mode == '0d-b2':
+            try:
+                tt = [float(impl_two_theta_0d_b2([b1], b2, u1, u2)[0]) for b2 in b2s]
+            except ImplRaised as e:
+                if type(e.exc).__name__ != 'DimensionError':
+                    raise
+                # the scalar model has no notion of array shapes; a shape-dependent refusal is judged by the oracle
+                # (key C03:two-theta-raises:incident-dims-not-in-scattered), not by the correspondence
+                ctx.count('two_theta:0d-b2:raised-DimensionError')
+                for _ in b2s:
+                    next(outs)
+                continue
+        else:
+            tt = impl_two_theta_0d(b1, b2s, u1, u2, scalar_b2=(mode == 'both-0d'))
+        for b2, t in zip(b2s, tt):
+            o = next(outs)
+            case = {'kind': mode, 'b1': b1, 'b2': b2, 'units': [u1, u2], 'via': 'two_theta-' + mode}
+            ctx.case(('t0', mode) + tuple(hp.bits(x) for x in (*b1, *b2)), True)
+            ctx.count('two_theta:' + mode)
+            if not _close_ulps(float(t), hp.unbits(o), 2):
+                ctx.disagree(case, _b(t), o, 'two_theta (0-d operand) differs by more than 2 ulp and 2e-15 rad')
+
 
 def _exact(fr: Fraction):
     """float equal to the fraction, or None"""
@@ -523,7 +638,21 @@ def _oracle(ctx, deep):
         for fn in sorted(os.listdir(cdir)):
             if fn.endswith('.json'):
                 with open(os.path.join(cdir, fn)) as f:
-                    ps = json.load(f)['pairs']
+                    doc = json.load(f)
+                for q in doc.get('pairs0d', []):
+                    b1, b2 = [hp.unbits(h) for h in q['b1']], [hp.unbits(h) for h in q['b2']]
+                    for mode in ('0d-b1', 'both-0d'):
+                        t = float(impl_two_theta_0d(b1, [b2], q['unit'], q['unit'], scalar_b2=(mode == 'both-0d'))[0])
+                        truth = _true_angle(b1, b2)
+                        ctx.case(('corpus0d', mode) + tuple(q['b1'] + q['b2']), True)
+                        ctx.count('oracle:corpus')
+                        if abs(hp.D(t) - truth) > hp.D(ACC):
+                            ctx.violation('C03:two-theta-accuracy', f'two_theta ({mode}: scalar operand) = {t!r} but the Euclidean angle of the '
+                                          f'exact inputs is {hp.fmt(truth)} (error {float(abs(hp.D(t) - truth)):.3g} rad > {ACC} rad)',
+                                          {'b1': q['b1'], 'b2': q['b2'], 'units': [q['unit'], q['unit']], 'mode': mode})
+                ps = doc.get('pairs', [])
+                if not ps:
+                    continue
                 _check_accuracy(ctx, 'C03:two-theta-accuracy', [[hp.unbits(h) for h in q['b1']] for q in ps],
                                 [[hp.unbits(h) for h in q['b2']] for q in ps], ['corpus'] * len(ps))
     # ---- O1: accuracy on the exact dyadic family (true angle also known in closed form: 2·atan τ) ----
@@ -579,7 +708,9 @@ def _oracle(ctx, deep):
             ctx.violation('C03:two-theta-rotation', f'two_theta changes from {t!r} to {float(ttp[i])!r} under a signed '
                           'permutation of the axes', {**w, 'perm': list(perms[i][0]), 'signs': perms[i][1]})
     _oracle_general_rotation(ctx, mult)
+    _oracle_0d_beams(ctx, mult)
     _oracle_pipeline(ctx, mult)
+    _oracle_accessors_repeatable(ctx, mult)
 
 
 def _rand_rotation(rng):
@@ -624,6 +755,262 @@ def _oracle_general_rotation(ctx, mult):
                           f'two_theta changes from {float(tt[i])!r} to {float(tt[i + 1])!r} under a rotation and rescaling',
                           {'b1': [hp.bits(x) for x in b1s[i]], 'b2': [hp.bits(x) for x in b2s[i]],
                            'rb1': [hp.bits(x) for x in b1s[i + 1]], 'rb2': [hp.bits(x) for x in b2s[i + 1]]})
+
+
+SCALES_0D = [1e6, 1e-6, 1e12, 1e-12]
+
+
+def _norm(v):
+    return math.sqrt(sum(c * c for c in v))
+
+
+def _oracle_0d_beams(ctx, mult):
+    """0-d (scalar) incident / scattered beams, half of them with transverse components that are tiny in absolute terms
+    (1e-16 … 1e-9 in the beam's unit; norms 1e-6 … 1e6; units mm/m/km/cm): accuracy against the 70-digit angle of the exact
+    inputs, and invariance under rescaling the incident beam by 1e±6, 1e±12 (true angle recomputed for the rounded rescaled
+    beam, so both evaluations are held to ACC and to each other)."""
+    rng = ctx.rng
+    n = ctx.n(500, 15000) * mult
+    for _ in range(n):
+        b1, b2s = gen_0d_group(rng)
+        if _norm(b1) == 0.0:
+            continue
+        b2s = [b for b in b2s if _norm(b) > 0.0]
+        if not b2s:
+            continue
+        u1, u2 = rng.choice(BIG_UNITS), rng.choice(BIG_UNITS)
+        mode = rng.choice(['0d-b1', '0d-b1', 'both-0d', '0d-b2'])
+
+        def run(bb1):
+            if mode == '0d-b2':
+                return [float(impl_two_theta_0d_b2([bb1], b2, u1, u2)[0]) for b2 in b2s]
+            return [float(x) for x in impl_two_theta_0d(bb1, b2s, u1, u2, scalar_b2=(mode == 'both-0d'))]
+        try:
+            tt = run(b1)
+        except ImplRaised as e:
+            if mode != '0d-b2' or type(e.exc).__name__ != 'DimensionError':
+                raise
+            sym = [float(x) for x in impl_two_theta_0d(b2s[0], [b1], u2, u1)]
+            ctx.case(('0d-raise',) + tuple(hp.bits(x) for x in (*b1, *b2s[0])), True)
+            ctx.violation('C03:two-theta-raises:incident-dims-not-in-scattered',
+                          f'two_theta(incident_beam=<per-pixel>, scattered_beam=<0-d>) raises DimensionError ({str(e.exc)[:80]}) although '
+                          f'two_theta with the two beams exchanged returns {sym[0]!r}: the angle is not symmetric in its beams for '
+                          'every valid combination of scalar and per-pixel operands',
+                          {'b1': [hp.bits(x) for x in b1], 'b2': [hp.bits(x) for x in b2s[0]], 'units': [u1, u2], 'mode': mode,
+                           'kind': 'raises'})
+            continue
+        n1 = _norm(b1)
+        ok_scales = [sc_ for sc_ in SCALES_0D if 0.999e-6 <= sc_ * n1 <= 1.001e6] or [1e6 if n1 < 1 else 1e-6]
+        sc_ = rng.choice(ok_scales)
+        sb1 = [c * sc_ for c in b1]
+        tts = run(sb1)
+        for k, b2 in enumerate(b2s):
+            truth, truth_s = _true_angle(b1, b2), _true_angle(sb1, b2)
+            w = {'b1': [hp.bits(x) for x in b1], 'b2': [hp.bits(x) for x in b2], 'b1_values': b1, 'b2_values': b2,
+                 'units': [u1, u2], 'mode': mode}
+            ctx.case(('0d', mode) + tuple(w['b1'] + w['b2']), True)
+            ctx.count('oracle:0d:' + mode)
+            if abs(hp.D(tt[k]) - truth) > hp.D(ACC):
+                ctx.violation('C03:two-theta-accuracy', f'two_theta ({mode}: scalar operand) = {tt[k]!r} but the Euclidean angle of the exact '
+                              f'inputs is {hp.fmt(truth)} (error {float(abs(hp.D(tt[k]) - truth)):.3g} rad > {ACC} rad)', w)
+            elif abs(hp.D(tts[k]) - truth_s) > hp.D(ACC) or abs(hp.D(tts[k]) - hp.D(tt[k])) > abs(truth_s - truth) + hp.D(2 * ACC):
+                ctx.violation('C03:two-theta-scale', f'two_theta ({mode}) changes from {tt[k]!r} to {tts[k]!r} when the incident beam is '
+                              f'rescaled by {sc_} (Euclidean angle {hp.fmt(truth)} → {hp.fmt(truth_s)})',
+                              {**w, 'scale_b1': sc_, 'sb1': [hp.bits(x) for x in sb1]})
+
+
+# ---- accessors of beamline_components: repeatable, no input modification, precomputed coordinates honoured ----
+
+ACCESSORS = ['position', 'source_position', 'sample_position', 'incident_beam', 'scattered_beam', 'L1', 'L2', 'two_theta',
+             'Ltotal:scatter', 'Ltotal:noscatter']
+PRECOMPUTABLE = ['incident_beam', 'scattered_beam', 'L1', 'L2', 'two_theta']
+
+
+def _snap(da):
+    """bit-level snapshot of all coordinates and the data of a data array"""
+    out = {'data': (str(da.data.dtype), str(da.data.unit), tuple(da.data.dims), np.array(da.data.values).tobytes())}
+    for k in sorted(da.coords.keys()):
+        v = da.coords[k]
+        out[k] = (str(v.dtype), str(v.unit), tuple(v.dims), np.array(v.values).tobytes())
+    return out
+
+
+def build_da(cfg):
+    """data array from a JSON-able configuration: positions (bit patterns) + any subset of precomputed coordinates"""
+    import scipp as sc
+
+    unit = cfg['unit']
+    pos = [[hp.unbits(h) for h in v] for v in cfg['position']]
+    n = len(pos)
+    coords = {'position': _vectors(pos, unit)}
+    for k in ('source_position', 'sample_position'):
+        v = [hp.unbits(h) for h in cfg[k]]
+        coords[k] = _vector(v, unit)
+    for k, spec_ in cfg['pre'].items():
+        vals = spec_['values']
+        if k in ('incident_beam', 'scattered_beam'):
+            arr = [[hp.unbits(h) for h in v] for v in vals]
+            coords[k] = _vector(arr[0], unit) if spec_['scalar'] else _vectors(arr, unit)
+        else:
+            arr = [hp.unbits(h) for h in vals]
+            u = 'rad' if k == 'two_theta' else unit
+            coords[k] = sc.scalar(arr[0], unit=u) if spec_['scalar'] else sc.array(dims=['pixel'], values=np.array(arr), unit=u)
+    return sc.DataArray(sc.ones(dims=['pixel'], shape=[n]), coords=coords)
+
+
+def call_accessor(da, name):
+    import scippneutron as scn
+
+    if name.startswith('Ltotal'):
+        return scn.Ltotal(da, scatter=name.endswith(':scatter'))
+    return getattr(scn, name)(da)
+
+
+def gen_da_cfg(rng):
+    n = rng.randrange(1, 6)
+    unit = rng.choice(UNITS)
+    while True:
+        kind, src, smp, _ = gen_positions(rng)
+        if kind != 'zero' and src != smp:
+            break
+    scale = max(_norm([smp[i] - src[i] for i in range(3)]), 1e-6)
+    pos = [[smp[i] + c * scale * _lu(rng, 1e-2, 1e2) for i, c in enumerate(_dir(rng))] for _ in range(n)]
+    pre = {}
+    if rng.random() < 0.25:
+        subset = []
+    else:
+        subset = [k for k in PRECOMPUTABLE if rng.random() < 0.4] or [rng.choice(PRECOMPUTABLE)]
+    for k in subset:
+        scalar = (k in ('incident_beam', 'L1') and rng.random() < 0.6) or (n == 1 and rng.random() < 0.3)
+        m = 1 if scalar else n
+        if k in ('incident_beam', 'scattered_beam'):
+            vals = [[hp.bits(c * scale * _lu(rng, 1e-2, 1e2)) for c in _dir(rng)] for _ in range(m)]
+        elif k == 'two_theta':
+            vals = [hp.bits(rng.uniform(0.0, math.pi)) for _ in range(m)]
+        else:
+            vals = [hp.bits(scale * _lu(rng, 1e-2, 1e2)) for _ in range(m)]
+        pre[k] = {'scalar': scalar, 'values': vals}
+    return {'unit': unit, 'position': [[hp.bits(x) for x in p] for p in pos], 'source_position': [hp.bits(x) for x in src],
+            'sample_position': [hp.bits(x) for x in smp], 'pre': pre}
+
+
+def expected_accessor(cfg, name, i):
+    """what the accessor must return for pixel i: a supplied coordinate is used as is, anything else is derived from the
+    (supplied or derived) quantities by its Euclidean definition.  Returns ('exact', floats) or ('len'|'angle', Decimal)."""
+    pos = [hp.unbits(h) for h in cfg['position'][i]]
+    src = [hp.unbits(h) for h in cfg['source_position']]
+    smp = [hp.unbits(h) for h in cfg['sample_position']]
+    pre = cfg['pre']
+
+    def sup(k):
+        sp_ = pre[k]
+        v = sp_['values'][0 if sp_['scalar'] else i]
+        return [hp.unbits(h) for h in v] if isinstance(v, list) else hp.unbits(v)
+    if name == 'position':
+        return 'exact', pos
+    if name == 'source_position':
+        return 'exact', src
+    if name == 'sample_position':
+        return 'exact', smp
+    ib = sup('incident_beam') if 'incident_beam' in pre else [float(Fraction(smp[k]) - Fraction(src[k])) for k in range(3)]
+    sb = sup('scattered_beam') if 'scattered_beam' in pre else [float(Fraction(pos[k]) - Fraction(smp[k])) for k in range(3)]
+    if name == 'incident_beam':
+        return 'exact', ib
+    if name == 'scattered_beam':
+        return 'exact', sb
+    l1 = ('exact', [sup('L1')]) if 'L1' in pre else ('len', hp.V.of(ib).norm())
+    l2 = ('exact', [sup('L2')]) if 'L2' in pre else ('len', hp.V.of(sb).norm())
+    if name == 'L1':
+        return l1
+    if name == 'L2':
+        return l2
+    if name == 'two_theta':
+        if 'two_theta' in pre:
+            return 'exact', [sup('two_theta')]
+        return 'angle', _true_angle(ib, sb)
+    if name == 'Ltotal:scatter':
+        a = hp.D(l1[1][0]) if l1[0] == 'exact' else l1[1]
+        b = hp.D(l2[1][0]) if l2[0] == 'exact' else l2[1]
+        return 'len', a + b
+    if name == 'Ltotal:noscatter':
+        return 'len', (hp.V.of(pos) - hp.V.of(src)).norm()
+    raise KeyError(name)
+
+
+def check_accessors(ctx, cfg, count=True):
+    """every accessor twice on the same data array: identical results, Euclidean values, bit-identical input afterwards"""
+    nviol = 0
+    da = build_da(cfg)
+    n = len(cfg['position'])
+    before = _snap(da)
+    for name in ACCESSORS:
+        fn = name.replace(':scatter', '(scatter=True)').replace(':noscatter', '(scatter=False)')
+        try:
+            r1 = call_accessor(da, name)
+            v1 = np.array(np.broadcast_to(r1.values, (n,) + np.shape(r1.values)[(1 if r1.ndim else 0):]) if r1.ndim == 0 else r1.values,
+                          dtype=np.float64).copy()
+            r2 = call_accessor(da, name)
+            v2 = np.array(np.broadcast_to(r2.values, (n,) + np.shape(r2.values)[(1 if r2.ndim else 0):]) if r2.ndim == 0 else r2.values,
+                          dtype=np.float64).copy()
+        except Exception as e:  # noqa: BLE001
+            pre = cfg['pre']
+            ib_per_pixel = 'incident_beam' in pre and not pre['incident_beam']['scalar']
+            sb_scalar = 'scattered_beam' in pre and pre['scattered_beam']['scalar']
+            key = 'C03:unexpected-exception'
+            if name == 'two_theta' and type(e).__name__ == 'DimensionError' and ib_per_pixel and sb_scalar:
+                # same class as the kernel-level finding: the incident beam has a dim the scattered beam lacks
+                key = 'C03:two-theta-raises:incident-dims-not-in-scattered'
+            ctx.violation(key, f'scippneutron.{fn} raised {type(e).__name__}: {str(e)[:160]} (precomputed coordinates: '
+                          f'{ {k: ("0-d" if v["scalar"] else "per-pixel") for k, v in pre.items()} })', {'cfg': cfg, 'accessor': name})
+            nviol += 1
+            continue
+        if count:
+            ctx.case(('acc2', name, repr(sorted(cfg['pre'])), tuple(cfg['position'][0])), True)
+            ctx.count('oracle:accessor:' + name + (':pre' if cfg['pre'] else ''))
+        after = _snap(da)
+        if after != before:
+            changed = sorted(k for k in set(before) | set(after) if before.get(k) != after.get(k))
+            ctx.violation(f'C03:input-modified:{name.split(":")[0]}', f'scippneutron.{fn} changed the coordinates {changed} of the data array '
+                          'it was given', {'cfg': cfg, 'accessor': name, 'changed': changed})
+            return nviol + 1
+        if v1.tobytes() != v2.tobytes():
+            ctx.violation(f'C03:second-call-differs:{name.split(":")[0]}', f'scippneutron.{fn} called twice on the same data array returned '
+                          f'{v1.ravel()[:3].tolist()} and then {v2.ravel()[:3].tolist()}', {'cfg': cfg, 'accessor': name})
+            return nviol + 1
+        for i in range(n):
+            kind, want = expected_accessor(cfg, name, i)
+            got = v1[i]
+            if kind == 'exact':
+                g = [float(x) for x in np.ravel(got)]
+                bad = [hp.bits(x) for x in g] != [hp.bits(x) for x in want]
+                desc = f'{want}'
+            elif kind == 'len':
+                slack = hp.D(0)
+                if name == 'Ltotal:noscatter' or (name in ('L1', 'L2', 'Ltotal:scatter')):
+                    # differences of positions are rounded once: condition-aware slack as in the pipeline oracle
+                    pos = [hp.unbits(h) for h in cfg['position'][i]]
+                    src = [hp.unbits(h) for h in cfg['source_position']]
+                    smp = [hp.unbits(h) for h in cfg['sample_position']]
+                    slack = hp.D(EPS) * (hp.V.of(pos).norm() + hp.V.of(src).norm() + 2 * hp.V.of(smp).norm())
+                bad = not abs(hp.D(float(got)) - want) <= hp.D(2 * LEN_RTOL) * want + slack
+                desc = hp.fmt(want)
+            else:
+                bad = not abs(hp.D(float(got)) - want) <= hp.D(ACC)
+                desc = hp.fmt(want)
+            if bad:
+                key = 'C03:two-theta-accuracy' if kind == 'angle' else ('C03:length-definition' if kind == 'len' else 'C03:precomputed-coordinate-ignored')
+                ctx.violation(key, f'scippneutron.{fn} = {np.ravel(got).tolist()} for pixel {i}; from the supplied/derived quantities the Euclidean '
+                              f'definition gives {desc} (precomputed coordinates: {sorted(cfg["pre"])})',
+                              {'cfg': cfg, 'accessor': name, 'pixel': i})
+                nviol += 1
+                break
+    return nviol
+
+
+def _oracle_accessors_repeatable(ctx, mult):
+    rng = ctx.rng
+    for _ in range(ctx.n(120, 3000) * mult):
+        check_accessors(ctx, gen_da_cfg(rng))
 
 
 def _dyadic_point(rng, bits_=20, e=None):
@@ -725,6 +1112,46 @@ def replay(ctx, payload):
 def _replay(ctx, payload):
     w = payload.get('witness', {})
     key = payload.get('key', '')
+    if 'cfg' in w:
+        class Sink:
+            def violation(self, key, what, witness):
+                print('  ', key, '—', what)
+
+            def case(self, *a, **k):
+                pass
+
+            def count(self, *a, **k):
+                pass
+        with hp.precision():
+            return check_accessors(Sink(), w['cfg'], count=False) > 0
+    if w.get('kind') == 'raises':
+        b1 = [hp.unbits(h) for h in w['b1']]
+        b2 = [hp.unbits(h) for h in w['b2']]
+        try:
+            impl_two_theta_0d_b2([b1, b1], b2, *w.get('units', ['m', 'm']))
+        except ImplRaised as e:
+            print('raised:', e)
+            return True
+        return False
+    if 'mode' in w and 'b1' in w:
+        with hp.precision():
+            b1 = [hp.unbits(h) for h in w['b1']]
+            b2 = [hp.unbits(h) for h in w['b2']]
+            u1, u2 = w.get('units', ['m', 'm'])
+
+            def run(bb1):
+                if w['mode'] == '0d-b2':
+                    return float(impl_two_theta_0d_b2([bb1], b2, u1, u2)[0])
+                return float(impl_two_theta_0d(bb1, [b2], u1, u2, scalar_b2=(w['mode'] == 'both-0d'))[0])
+            t, truth = run(b1), _true_angle(b1, b2)
+            print(f'two_theta ({w["mode"]}) = {t!r}; Euclidean angle of the exact inputs = {hp.fmt(truth)}')
+            bad = abs(hp.D(t) - truth) > hp.D(ACC)
+            if 'sb1' in w:
+                sb1 = [hp.unbits(h) for h in w['sb1']]
+                ts, truth_s = run(sb1), _true_angle(sb1, b2)
+                print(f'rescaled by {w["scale_b1"]}: two_theta = {ts!r}; Euclidean angle = {hp.fmt(truth_s)}')
+                bad = bad or abs(hp.D(ts) - truth_s) > hp.D(ACC) or abs(hp.D(ts) - hp.D(t)) > abs(truth_s - truth) + hp.D(2 * ACC)
+            return bad
     if key == 'C03:unexpected-exception':
         if 'b1' in w:
             impl_two_theta([[hp.unbits(h) for h in w['b1']]], [[hp.unbits(h) for h in w['b2']]], *w.get('units', ['m', 'm']))
